@@ -5,6 +5,8 @@ In every reached state every applicable observable must equal the base value map
 One Sub per observable family; a runner case is (base id, generator word).  The states are enumerated by
 mc.ref.symm.bfs (de-duplicated by the exact bytes of the configuration), the observable of the base is computed
 once per worker and cached."""
+import itertools
+import json
 import os
 
 import numpy as np
@@ -12,7 +14,9 @@ import numpy as np
 from mc import harness
 from mc.harness import Result, Sub
 from mc.ref import symm as S
-from mc.ref.base import mk_snaps, write_neighbor_file
+from mc.ref import c03x as X3
+from mc.ref import c07y as Y
+from mc.ref.base import mk_snaps, write_neighbor_file, write_weight_file
 
 ASSUMPTIONS = [
     "an axis permutation acts on coordinates, on rows AND columns of the h-matrix, on boxlength/boxbounds and on ppp",
@@ -27,6 +31,18 @@ ASSUMPTIONS = [
     "float tolerance rtol 1e-9 / atol 1e-11 (Hessian eigenvalues: 1e-9 of the largest |eigenvalue|; mode participation "
     "ratios only for eigenvalues isolated by 1e-4 of the largest)",
     "the dump reader is trusted for loading the repository samples (C01)",
+    "multi-cell shifts (a particle moved by +2, -3, +4 whole cell vectors along a periodic axis, in every frame or - for the routines that "
+    "take wrapped trajectories - in the last frame only) are whole-cell shifts in the sense of the statement; the tolerance stays the same",
+    "species-PAIR tables may be asymmetric where the routine indexes them by the ordered pair (centre species, partner species): the type-pair "
+    "cutoff (documented layout [[A-A, A-B], [B-A, B-B]]) and the S2 Gaussian widths are also driven with r[a,b] != r[b,a]; per-bond weights of "
+    "the bond-order classes are unequal and asymmetric (w_ij != w_ji); all are relabelled together with the species / the ids.  The asymmetric "
+    "cutoff matrix is the first of a fixed candidate list that keeps a 1e-4 margin to every pair distance of the base",
+    "absolute scale: the dilation generators 2, 1/2 (3) are joined by 2^-33 and 2^+27 (exact in binary floating point; orthogonal and tilted bases): "
+    "g(r) values are unchanged with r and the bin width scaled (statement); neighbour SETS (cutoffs scaled with the coordinates), q_l, w-hat_l, |psi_l| "
+    "and the tetrahedral order are scale-free and are driven with the same dilations; S(q), S2, the Hessian and the relaxation functions are not",
+    "C07.sequence: in the other sub-checks the base value is computed once per worker process and every image after it in the SAME process; "
+    "the explicit search runs words (base, image), (image, base), (2D, 3D) ... in a forked child with re-imported library modules and demands "
+    "that every call returns bit for bit what the same call returns when made first in a fresh child",
 ]
 
 DATA = os.path.join(harness.REPO, "tests", "sample_test_data")
@@ -244,13 +260,20 @@ def o_neigh(B, cfg, el):
     for k in B["par"]["nn_N"]:
         Nnearests(sn, N=k, ppp=ppp, fnfile="c07_nn.dat")
         out[f"nearest{k}"] = S.parse_neighbor_file("c07_nn.dat", n)
-    cutoffneighbors(sn, r_cut=B["par"]["rcut"], ppp=ppp, fnfile="c07_nn.dat")
+    sc = el["scale"]  # a dilation scales every cutoff with the coordinates (the neighbour SETS are scale-free)
+    cutoffneighbors(sn, r_cut=B["par"]["rcut"] * sc, ppp=ppp, fnfile="c07_nn.dat")
     out["cutoff"] = S.parse_neighbor_file("c07_nn.dat", n)
     if B["par"]["rcut_type"] is not None:
         K = nspecies(cfg)
-        rc = S.map_matrix(B["par"]["rcut_type"][:K, :K], el["smap"])
+        rc = S.map_matrix(B["par"]["rcut_type"][:K, :K], el["smap"]) * sc
         cutoffneighbors_particletype(sn, r_cut=rc, ppp=ppp, fnfile="c07_nn.dat")
         out["cutoff_type"] = S.parse_neighbor_file("c07_nn.dat", n)
+        if K >= 2:
+            if "rcut_asym" not in B["aux"]:
+                B["aux"]["rcut_asym"] = Y.asym_rcut(B["cfg"], B["par"]["rcut_type"])
+            rc = S.map_matrix(B["aux"]["rcut_asym"][0], el["smap"]) * sc
+            cutoffneighbors_particletype(sn, r_cut=rc, ppp=ppp, fnfile="c07_nn.dat")
+            out["cutoff_typeasym"] = S.parse_neighbor_file("c07_nn.dat", n)
     os.remove("c07_nn.dat")
     return out
 
@@ -293,6 +316,8 @@ def x_neigh(R, B, bv, iv, el, fail):
 def _write_nl(B, cfg, el):
     nl = [S.map_neighbors(fr, el["perm"]) for fr in B["par"]["nl"]]
     write_neighbor_file("c07_nl.dat", nl)
+    # unequal, asymmetric per-bond weights tied to the (base particle, neighbour slot), carried along by the relabelling
+    write_weight_file("c07_w.dat", [Y.map_weights(Y.bond_weights(fr), el["perm"]) for fr in B["par"]["nl"]])
 
 
 def o_boo3d(B, cfg, el):
@@ -309,7 +334,12 @@ def o_boo3d(B, cfg, el):
         if l in B["par"]["w_l"]:
             out[f"what{l}"] = b.w_W_cap(coarse_graining=False)[1]
             out[f"What{l}"] = b.w_W_cap(coarse_graining=True)[1]
+        if l == B["par"]["bool_l"][-1] and not B["bid"].startswith("file:"):
+            bw = boo_3d(snaps_of(B, c1), l=l, neighborfile="c07_nl.dat", weightsfile="c07_w.dat", ppp=np.array(cfg["ppp"]), Nmax=30)
+            out[f"qw{l}"] = bw.ql_Ql(coarse_graining=False)
+            out[f"Qw{l}"] = bw.ql_Ql(coarse_graining=True)
     os.remove("c07_nl.dat")
+    os.remove("c07_w.dat")
     return out
 
 
@@ -323,7 +353,11 @@ def o_boo2d(B, cfg, el):
     for l in [3] + B["par"]["bool_l"]:
         b = boo_2d(snaps_of(B, c1), l=l, neighborfile="c07_nl.dat", ppp=np.array(cfg["ppp"]), Nmax=30)
         out[f"abspsi{l}"] = np.abs(b.ParticlePhi)
+        if l == B["par"]["bool_l"][-1] and not B["bid"].startswith("file:"):
+            bw = boo_2d(snaps_of(B, c1), l=l, neighborfile="c07_nl.dat", weightsfile="c07_w.dat", ppp=np.array(cfg["ppp"]), Nmax=30)
+            out[f"abspsiw{l}"] = np.abs(bw.ParticlePhi)
     os.remove("c07_nl.dat")
+    os.remove("c07_w.dat")
     return out
 
 
@@ -369,7 +403,12 @@ def o_s2(B, cfg, el):
     K = nspecies(cfg)
     p = B["par"]["s2"]
     sig = S.map_matrix(p["sigmas"][:K, :K], el["smap"])
-    return {"s2": S2(snaps_of(B, cfg), sigmas=sig, ppp=np.array(cfg["ppp"]), rdelta=p["rdelta"], ndelta=p["ndelta"]).particle_s2()}
+    out = {"s2": S2(snaps_of(B, cfg), sigmas=sig, ppp=np.array(cfg["ppp"]), rdelta=p["rdelta"], ndelta=p["ndelta"]).particle_s2()}
+    if K >= 2 and not B["bid"].startswith("file:"):
+        # widths indexed by the ORDERED pair (centre species, partner species): sigma[a, b] != sigma[b, a]
+        sig = S.map_matrix(Y.asym_sigmas(p["sigmas"][:K, :K]), el["smap"])
+        out["s2asym"] = S2(snaps_of(B, cfg), sigmas=sig, ppp=np.array(cfg["ppp"]), rdelta=p["rdelta"], ndelta=p["ndelta"]).particle_s2()
+    return out
 
 
 def o_hessian(B, cfg, el):
@@ -509,10 +548,10 @@ OBS = {
 GEN = {
     "gr": dict(frameshift=True, dil=True),
     "sq": dict(frameshift=True),
-    "neigh": dict(frameshift=True),
-    "boo3d": dict(rot=True),
-    "boo2d": dict(rot=True),
-    "tetra": dict(rot=True, frameshift=True),
+    "neigh": dict(frameshift=True, dil=True),
+    "boo3d": dict(rot=True, dil=True),
+    "boo2d": dict(rot=True, dil=True),
+    "tetra": dict(rot=True, frameshift=True, dil=True),
     "s2": dict(),
     "hessian": dict(),
     "relaxx": dict(frameshift=True),
@@ -556,8 +595,15 @@ def make_gen(obs):
     def gen(tier, seed):
         for bid in bases_for(obs, tier):
             B = get_base(bid, seed, obs, tier)
-            gens = S.generators(B["cfg"], tier, **GEN[obs])
-            states, _ = S.bfs(B["cfg"], gens, depth_for(obs, bid, tier), seed)
+            gens = Y.generators(B["cfg"], tier, **GEN[obs])
+            depth = depth_for(obs, bid, tier)
+            if depth <= 2:
+                states, _ = Y.bfs(B["cfg"], gens, depth, seed)
+            else:
+                # depth 3: all words of the single-cell generator set, plus all words up to depth 2 that contain a multi-cell shift
+                states, _ = Y.bfs(B["cfg"], S.generators(B["cfg"], tier, **GEN[obs]), depth, seed)
+                have = {tuple(w) for w, _ in states}
+                states = states + [(w, n) for w, n in Y.bfs(B["cfg"], gens, 2, seed)[0] if tuple(w) not in have and any(g[0] in "MG" for g in w)]
             for word, n_in in states:
                 yield {"obs": obs, "base": bid, "seed": seed, "tier": tier, "word": word, "n_in": n_in}
 
@@ -575,21 +621,22 @@ def gen_samples(tier, seed):
                 continue
             opts = dict(GEN[obs])
             opts["rot"] = False
-            gens = S.generators(B["cfg"], "thorough", **opts)
+            gens = Y.generators(B["cfg"], "thorough", **opts)
             if tier == "quick" or len(B["cfg"]["types"]) > 4000:
                 # one or two generators of every kind (all axis permutations, both translations, three of the shifts)
                 d = sp["d"]
-                keep = {"T0", "T1", "S0+0", "Sm-1", f"Sl+{d - 1}", f"Fm{'+-'[(d - 1) % 2]}{d - 1}", "Prev", "Pcyc", "X12", "X1K", "D2", "Dh"}
+                keep = {"T0", "T1", "S0+0", "Sm-1", f"Sl+{d - 1}", f"Fm{'+-'[(d - 1) % 2]}{d - 1}", "Prev", "Pcyc", "X12", "X1K", "D2", "Dh",
+                        "M0+02", f"Ml-{d - 1}3", f"G0-{d - 1}3"}
                 gens = [g for g in gens if g in keep or g[0] == "A"]
-            states, _ = S.bfs(B["cfg"], gens, 1, seed)
+            states, _ = Y.bfs(B["cfg"], gens, 1, seed)
             words = [(w, n) for w, n in states]
             if tier == "thorough" and len(B["cfg"]["types"]) <= 4000:
                 # selected depth-2 words: one generator of every kind composed with every other kind
                 rep = {}
                 for g in gens:
-                    rep.setdefault(S.kind_of(g), g)
+                    rep.setdefault(Y.kind_of(g), g)
                 reps = [rep[k] for k in sorted(rep)]
-                words += [([a, b], 1) for a in reps for b in reps if S.kind_of(a) != S.kind_of(b)]
+                words += [([a, b], 1) for a in reps for b in reps if Y.kind_of(a) != Y.kind_of(b)]
             for word, n_in in words:
                 yield {"obs": obs, "base": bid, "seed": seed, "tier": tier, "word": word, "n_in": n_in}
 
@@ -602,8 +649,8 @@ def run(case):
     ident = S.identity(B["cfg"])
     if B["val"] is None:
         B["val"] = compute(B, B["cfg"], ident)
-    cfg, el = S.apply_word(B["cfg"], case["word"], case["seed"])
-    kinds = [S.kind_of(g) for g in case["word"]]
+    cfg, el = Y.apply_word(B["cfg"], case["word"], case["seed"])
+    kinds = [Y.kind_of(g) for g in case["word"]]
     cell = case["base"][1] if not case["base"].startswith("file:") else "sample"
     subid = f"C07.{obs}." + "-".join(kinds)
 
@@ -628,14 +675,95 @@ def _flat(v):
     return v
 
 
+# ----------------------------------------------------------------------------------------- C07.sequence
+# Letters = complete calls (observable, base, generator word).  The images are chosen so that base and image collide in plausible incomplete
+# memo keys: an axis permutation of the anisotropic cell keeps the longest edge (hence numofq, the bin count, the volume), an id permutation
+# keeps every count and shape, a species swap keeps N and the number of species, a whole-cell shift keeps everything but one coordinate, the
+# other-dimension base keeps the particle types; the triclinic base shares the cell diagonal of the orthogonal one.
+SEQ_OBS = {
+    "gr": ("3o2", "2o2"), "sq": ("3o2", "2o2"), "neigh": ("3o2", "2o2"), "s2": ("3o2", "2o2"), "hessian": ("3o2", "2o2"),
+    "relaxx": ("3o2", "2o2"), "boo3d": ("3o2", "3t3"), "boo2d": ("2o2", "2t3"), "tetra": ("3o2", "3t3"),
+}
+
+
+def seq_letters(obs):
+    b1, b2 = SEQ_OBS[obs]
+    d = int(b1[0])
+    rot = "A201" if d == 3 else "A10"
+    L = [(b1, []), (b1, [rot]), (b1, ["Prev"]), (b1, ["X12"]), (b1, [f"Ml-{d - 1}3"]), (b2, [])]
+    if b2[0] != b1[0]:
+        L.append((b2, ["A10" if b2[0] == "2" else "A201"]))
+    else:
+        L.append((b2, ["Pcyc"]))
+    return L
+
+
+def _seq_eval(case):
+    """executed in the forked child: the calls of one word, in order"""
+    obs = case["obs"]
+    out = []
+    for k in case["word"]:
+        bid, word = seq_letters(obs)[k]
+        B = get_base(bid, case["seed"], obs, "quick")
+        cfg, el = Y.apply_word(B["cfg"], word, case["seed"])
+        out.append(Y.to_json(OBS[obs][0](B, cfg, el)))
+    return out
+
+
+def gen_sequence(tier, seed):
+    depth = 2 if tier == "quick" else 3
+    for obs in SEQ_OBS:
+        nl = len(seq_letters(obs))
+        for Lw in range(1, depth + 1):
+            for word in itertools.product(range(nl), repeat=Lw):
+                if Lw == 3 and (len(set(word)) == 1 or obs in ("boo3d", "hessian") and word[0] == word[2]):
+                    continue
+                yield {"obs": obs, "word": list(word), "seed": seed, "part": "sequence"}
+
+
+_SEQ_FRESH = {}
+
+
+def run_sequence(case):
+    R = Result()
+    obs, seed = case["obs"], case["seed"]
+    letters = seq_letters(obs)
+    names = [letters[k][0] + ":" + (".".join(letters[k][1]) or "id") for k in case["word"]]
+    payload = X3.fresh_child(_seq_eval, case, Y.SEQ_MODS)
+    if "err" in payload:
+        R.fail(f"{obs}: call sequence {names} raised {payload['err']}", sig={"part": "sequence", "obs": obs, "exception": True}, sub="C07.sequence")
+        return R
+    for k in set(case["word"]):
+        if (obs, seed, k) not in _SEQ_FRESH:
+            one = X3.fresh_child(_seq_eval, dict(case, word=[k]), Y.SEQ_MODS)
+            if "err" in one:
+                R.fail(f"{obs}: single call {letters[k]} raised {one['err']}", sig={"part": "sequence", "obs": obs, "exception": True}, sub="C07.sequence")
+                return R
+            _SEQ_FRESH[(obs, seed, k)] = one["ok"][0]
+    states = set()
+    for pos_, (k, got) in enumerate(zip(case["word"], payload["ok"])):
+        ref = _SEQ_FRESH[(obs, seed, k)]
+        if not Y.same_json(got, ref):
+            R.fail(f"{obs}: call #{pos_ + 1} ({names[pos_]}) of the sequence {names} differs at {Y.first_difference(ref, got)} from the same call made first in a "
+                   f"fresh process (earlier calls: {names[:pos_]})",
+                   sig={"part": "sequence", "obs": obs, "position": "later" if pos_ else "first"}, sub="C07.sequence")
+        states.add(json.dumps(got, sort_keys=True)[:4000])
+    R.outcome(sorted(states), nd=9)
+    R.states = len(case["word"]) + 1
+    R.transitions = len(case["word"])
+    R.elem = len(case["word"])
+    R.nontrivial = True
+    return R
+
+
 RULES = {
     "gr": "gr().getresults(), widths 0.125 and 0.22, two frames, all columns, every bin without an edge-ambiguous pair",
     "sq": "sq().getresults() with the default wave-vector set (qrange 7) and an explicit asymmetric integer list (columns permuted with the axes); orthogonal cells",
-    "neigh": "Nnearests (two N), cutoffneighbors, cutoffneighbors_particletype: neighbour SETS parsed from the files they write, two frames",
-    "boo3d": "boo_3d q_l, Q_l (l=4,6), w-hat_l, W-hat_l (l=4; thorough also l=6 on the depth-2 bases) per particle; periodic bases and open clusters (+rotations)",
-    "boo2d": "boo_2d |psi_l| (l=3,4,6) per particle; periodic bases and open clusters (+rotations)",
+    "neigh": "Nnearests (two N), cutoffneighbors, cutoffneighbors_particletype (symmetric and asymmetric r_cut[a,b] != r_cut[b,a] tables): neighbour SETS parsed from the files they write, two frames",
+    "boo3d": "boo_3d q_l, Q_l (l=4,6), w-hat_l, W-hat_l (l=4; thorough also l=6 on the depth-2 bases) per particle, q_6 / Q_6 also with unequal asymmetric per-bond weights (weightsfile); periodic bases and open clusters (+rotations)",
+    "boo2d": "boo_2d |psi_l| (l=3,4,6) per particle, |psi_6| also with unequal asymmetric per-bond weights; periodic bases and open clusters (+rotations)",
     "tetra": "q8_tetrahedral per particle, two frames; periodic bases and open clusters (+rotations)",
-    "s2": "S2.particle_s2 per particle (species-dependent widths)",
+    "s2": "S2.particle_s2 per particle (species-dependent widths, symmetric and asymmetric sigma[a,b] != sigma[b,a] tables)",
     "hessian": "HessianMatrix.diagonalize_hessian eigenvalues (from omega) for LJ/Hertz/IPL with unequal masses; PR of isolated modes",
     "relaxx": "Dynamics(x_snapshots).relaxation rows (slow/all particles, fast/per-frame selection, cage-relative with ragged 1-/2-nearest lists), three frames, image shifts of single frames",
     "relaxu": "Dynamics(xu_snapshots).relaxation rows (slow/all particles, fast/per-frame selection, cage-relative with ragged lists), three frames",
@@ -648,7 +776,7 @@ def subs(tier, seed):
     out = []
     for obs in ("gr", "sq", "neigh", "boo3d", "boo2d", "tetra", "s2", "hessian", "relaxx", "relaxu", "shape", "pr"):
         s = Sub(f"C07.{obs}", make_gen(obs), run,
-                rule=RULES[obs] + "; states = words of the applicable generators (breadth-first, de-duplicated by configuration bytes) up to depth "
+                rule=RULES[obs] + "; states = words of the applicable generators incl. multi-cell shifts (+2, -3" + ("" if tier == "quick" else ", +4") + " cell vectors; for wrapped trajectories also a -3 jump in the last frame only) (breadth-first, de-duplicated by configuration bytes; words containing a multi-cell shift up to depth 2) up to depth "
                 + ("2" if tier == "quick" else "3 on one base per cell kind, 2 on the others") + "; non-trivial = the observable varies / is populated on the base",
                 bounds={"bases": bases_for(obs, tier), "depth": 2 if tier == "quick" else 3, "generators": GEN[obs]})
         out.append(s)
@@ -658,4 +786,12 @@ def subs(tier, seed):
                  + "; neighbour/tetrahedral/S2 rows only for particles with rank/cutoff margin, g(r) bins without edge-ambiguous pairs",
             bounds={"files": [k for k, v in SAMPLES.items() if tier == "thorough" or not v.get("thorough")], "depth": 1 if tier == "quick" else 2})
     out.append(s)
+    out.append(Sub("C07.sequence", gen_sequence, run_sequence,
+                   rule=f"explicit-state search over call words of length <= {2 if tier == 'quick' else 3} per observable ({', '.join(SEQ_OBS)}); letters = the observable "
+                        "on the anisotropic base, on its images under an axis permutation (same longest edge, numofq, bin count, volume), an id reversal (same counts), "
+                        "a species swap, a -3 cell-vector shift of the last particle, and on a second base (other dimension, or the triclinic cell with the same "
+                        "diagonal) and an image of it; every word in a forked child whose library modules were re-imported; every call must return bit for bit what "
+                        "the same call returns when made first (the relation between base and image values is the subject of the other sub-checks, which evaluate "
+                        "base and images in one worker process, base first)",
+                   bounds={"letters": 7, "depth": 2 if tier == "quick" else 3, "observables": list(SEQ_OBS)}))
     return out
